@@ -39,6 +39,8 @@ type vfSrv struct {
 	dir    string
 	cancel func()
 	clock  atomic.Int64
+	// how long a fake runner takes to answer a ping (ns): the window between dequeue and reply
+	pingDelay atomic.Int64
 	// the runner dies after its final chunk: tokenizing prompt + response (GenerateHandler) fails
 	tokenizeFail atomic.Bool
 	// what the fake runners answer: chunks, then the final record (or an error after `failAfter` chunks)
